@@ -9,7 +9,7 @@ Q=["quick","thorough"];T=["thorough"]
 H=[{"name":"H_witness","tiers":Q,"expect":"violation","bounds":"vacuity witness"},
  {"name":"H_content","tiers":Q,"scale":"b2","bounds":"B=2, MaxWoundSize=2B: signed 0..2B+1, actual 0..signed+B+1, all byte values","param_sets":grid(5,3)},
  {"name":"H_content","tiers":Q,"scale":"b4","bounds":"B=4: signed 0..B+1, actual 0..signed+2","param_sets":grid(5,2)},
- {"name":"H_kinds","tiers":Q,"scale":"b4","bounds":"file+dir+symlink, 4x3x5 on-disk states, signed file 0..2 bytes","param_sets":[{"ns":0},{"ns":2}]},
+ {"name":"H_kinds","tiers":Q,"scale":"b4","bounds":"file + dir + symlink + nested dir: 5x4x5x4 on-disk states (as signed, missing, other kind, retargeted, parent replaced by a file, replaced by a symlink to an identical file / directory / tree), signed file 0..2 bytes","param_sets":[{"ns":0},{"ns":2}]},
  {"name":"H_content","tiers":T,"scale":"b3","bounds":"B=3: signed 0..2B+1, actual 0..signed+B+1","max_seconds":900,"param_sets":grid(7,4)},
  {"name":"H_content","tiers":T,"scale":"b4","bounds":"B=4: signed 0..2B+1, actual 0..signed+B+1","max_seconds":900,"param_sets":[p for p in grid(9,5) if p["ns"]>5 or p["na"]>p["ns"]+2]},
  {"name":"H_content","tiers":T,"scale":"b2","bounds":"B=2: signed 6..4B+1 (more than MaxWoundSize), actual 0..signed+B+1","max_seconds":900,"param_sets":[p for p in grid(9,3) if p["ns"]>5]},
